@@ -160,7 +160,11 @@ class Structures(Scenario):
                        "reads": {"slim": lambda o: o.slim.array, "native": lambda o: o.native.array, "magnitudes": lambda o: o.magnitudes.array},
                        "ops": dict(arith)}
         t["Kernel"] = {"cls": aa.Kernel2D,
-                       "reads": {"native": lambda o: o.native.array, "convolved": lambda o: o.convolved_array_from(
+                       "reads": {"native": lambda o: o.native.array, "slim": lambda o: o.slim.array, "normalized": lambda o: o.normalized.native.array,
+                                 "simulated": lambda o: aa.SimulatorImaging(exposure_time=10.0, psf=o, normalize_psf=True, add_poisson_noise_to_data=False,
+                                                                             noise_seed=1).via_image_from(
+                                     image=aa.Array2D.no_mask(values=np.arange(25.0).reshape(5, 5) + 1.0, pixel_scales=1.0)).data.native.array,
+                                 "convolved": lambda o: o.convolved_array_from(
                            array=aa.Array2D.no_mask(values=np.arange(25.0).reshape(5, 5), pixel_scales=1.0)).native.array},
                        "ops": dict(arith)}
         t["Array1D"] = {"cls": aa.Array1D, "reads": {"slim": lambda o: o.slim.array, "native": lambda o: o.native.array},
@@ -459,6 +463,36 @@ def probes(seed):
             rec("Construct", name, "constructors-leave-caller-owned-inputs-unchanged", fp_arr(a) == f0)
         except Exception as e:
             rec("Construct", name, "constructors-leave-caller-owned-inputs-unchanged", True, note=str(e)[:60])
+    # slim (1D) caller-owned inputs, normalisation on construction
+    nu = int((~mk).sum())
+    for name, make in [
+        ("Array2D(slim)", lambda a: aa.Array2D(values=a, mask=mask)), ("Array2D(slim).native", lambda a: aa.Array2D(values=a, mask=mask).native),
+        ("Kernel2D(slim,normalize)", lambda a: aa.Kernel2D(values=a, mask=mask, normalize=True)),
+        ("Array1D.no_mask", lambda a: aa.Array1D.no_mask(values=a, pixel_scales=1.0)),
+    ]:
+        a = rng.random(nu) + 2.0
+        f0 = fp_arr(a)
+        try:
+            make(a)
+            rec("Construct", name, "constructors-leave-caller-owned-inputs-unchanged", fp_arr(a) == f0)
+        except Exception as e:
+            rec("Construct", name, "no-exception-in-constructor-probe", False, note=f"{type(e).__name__}: {str(e)[:60]}")
+    a = rng.random(9) + 1.0
+    f0 = fp_arr(a)
+    try:
+        aa.Kernel2D.no_mask(values=a, shape_native=(3, 3), pixel_scales=1.0, normalize=True)
+        rec("Construct", "Kernel2D.no_mask(slim,normalize)", "constructors-leave-caller-owned-inputs-unchanged", fp_arr(a) == f0)
+    except Exception as e:
+        rec("Construct", "Kernel2D.no_mask(slim,normalize)", "no-exception-in-constructor-probe", False, note=f"{type(e).__name__}: {str(e)[:60]}")
+    # one caller array used for two constructions with different masks: the first object must not change
+    a = rng.standard_normal((6, 5)) + 3.0
+    mk2 = mk.copy()
+    mk2[2, 2] = True
+    first = aa.Array2D(values=a, mask=aa.Mask2D.all_false(shape_native=(6, 5), pixel_scales=1.0), store_native=True)
+    before = canon(first.native.array)
+    aa.Array2D(values=first.native, mask=aa.Mask2D(mask=mk2, pixel_scales=1.0), store_native=True)
+    first.apply_mask(mask=aa.Mask2D(mask=mk2, pixel_scales=1.0))
+    rec("Construct", "Array2D(values=other.native, smaller mask)", "constructors-leave-source-structure-unchanged", canon(first.native.array) == before)
     for name, make in [("Grid2D(native)", lambda a: aa.Grid2D(values=a, mask=mask)), ("Grid2D(native,store_native)", lambda a: aa.Grid2D(values=a, mask=mask, store_native=True)),
                        ("VectorYX2D(native)", lambda a: aa.VectorYX2D(values=a, grid=aa.Grid2D.from_mask(mask), mask=mask)),
                        ("Grid2D.no_mask", lambda a: aa.Grid2D.no_mask(values=a, pixel_scales=1.0))]:
